@@ -14,7 +14,7 @@
 
 from typing import Dict
 
-from sympy import Symbol, cse
+from sympy import Symbol, cse, numbered_symbols
 from sympy.logic.boolalg import And, Boolean, Not, Or, Xor, simplify_logic
 
 from ..ast2logic import BoolExpList
@@ -56,7 +56,14 @@ def merge_expressions(exps: BoolExpList) -> BoolExpList:
 
 def apply_cse(exps: BoolExpList) -> BoolExpList:
     lsts = list(zip(*exps))
-    repl, red = cse(list(lsts[1]))
+    defined = set(lsts[0])
+    # cse() returns its replacements separately and they are put in front of the
+    # list: a replacement that mentions a symbol defined by the list would read it
+    # before its definition, so such lists are left as they are
+    if any(e.free_symbols & defined for e in lsts[1]):
+        return exps
+    # a replacement must not take the name of a symbol the list defines
+    repl, red = cse(list(lsts[1]), symbols=numbered_symbols(exclude=defined))
     res = repl + list(zip(lsts[0], red))
     return res
 
